@@ -55,6 +55,8 @@ def run_one(prop, mutant, tier, tests, seed):
         env = dict(os.environ, VERIF_REPO=dst, VERIF_SEED=str(seed), VERIF_EVIDENCE_DIR=os.path.join(dst, "_ev"), VERIF_RUN_REPLAY_DIR=os.path.join(dst, "_rp"))
         r = subprocess.run([os.path.join(HERE, "check"), prop, "--tier", tier], capture_output=True, text=True, env=env, cwd=HERE)
         caught = r.returncode == 1 and "VIOLATION" in r.stdout
+        if expect == "skip":
+            pass
         status = "caught" if caught else ("green" if r.returncode == 0 else f"exit{r.returncode}")
         clause = ""
         for line in r.stdout.splitlines():
